@@ -79,6 +79,15 @@ impl OwnedLazyValue {
     pub(crate) fn from_faststr(str: FastStr) -> Self {
         Self(LazyPacked::Parsed(Parsed::String(str)))
     }
+
+    fn from_literal(raw: &[u8]) -> Option<Self> {
+        match raw {
+            b"true" => Some(true.into()),
+            b"false" => Some(false.into()),
+            b"null" => Some(().into()),
+            _ => None,
+        }
+    }
 }
 
 impl From<Number> for OwnedLazyValue {
@@ -544,6 +553,11 @@ impl OwnedLazyValue {
             JsonSlice::FastStr(f) => f.clone(),
         };
 
+        // literals are kept parsed: the raw representation only knows numbers, strings and containers
+        if let Some(literal) = Self::from_literal(raw.as_bytes()) {
+            return literal;
+        }
+
         if status == HasEsc::None {
             Self(LazyPacked::NonEscStrRaw(raw))
         } else {
@@ -584,6 +598,10 @@ impl OwnedLazyValue {
 impl<'de> From<LazyValue<'de>> for OwnedLazyValue {
     fn from(lv: LazyValue<'de>) -> Self {
         let raw = unsafe { lv.raw.as_faststr() };
+        if let Some(literal) = Self::from_literal(raw.as_bytes()) {
+            return literal;
+        }
+
         if lv.inner.no_escaped() && raw.as_bytes()[0] == b'"' {
             return Self(LazyPacked::NonEscStrRaw(raw));
         }
